@@ -28,8 +28,7 @@ use super::*;
 pub mod karatsuba {
 use super::super::*;
 use super::super::mul;
-/// integer/src/mul/karatsuba.rs:19 (mirrored)
-pub const MIN_LEN: usize = 3;
+//@@ CONST integer/memsize/c_kara_min_len.rs
 // debug_assert_zero #2, #3 (value facts, proved in int_mul_karatsuba) and #4 `carry.abs() <= 1` (exec abs) dropped
 //@@ FN integer/memsize/kara_same_len.rs drop_asserts=2,3,4
 }
